@@ -26,7 +26,8 @@ RULE = ("texts for Acl (extended, standard), AceGroup and AddrGroup on both plat
         "events accounted line by line; distinct non-trivial = (class, platform, #valid, #ignorable, #invalid kinds, "
         "outcome) with at least one non-valid line"
         " Round 4: address groups also through addrgroups(config) and AddrGroup(name=, items=[...])."
-        " Round 5: comment lines inside sections; group_by on AceGroup.")
+        " Round 5: comment lines inside sections; group_by on AceGroup."
+        " Rounds 6-7: per cent signs in invalid lines; a second group header inside a group body.")
 ASSUMPTIONS = ["'reported' = some captured record whose formatted message contains the whitespace-normalised line text; the "
                "wording around it is free", "an invalid line the library accepts leniently counts as represented when the "
                "next item carries its unique token"]
